@@ -6,7 +6,7 @@ sys.path.insert(0, os.path.dirname(os.path.dirname(os.path.abspath(__file__))))
 
 from pyvc import runner
 from contracts import handlers as H
-from props import common, gen_scripts, leafs
+from props import common, gen_scripts, leafs, mutators
 
 
 def replay_c05(r):
@@ -24,10 +24,11 @@ def build(tier, seed, prop='C05', keep=('C05.',)):
                        gen_scripts.provider_script(route, method, wobj),
                        common.handler_names(wobj))
     leafs.add(chk, ['cas.provider'])
+    mutators.add(chk)
     chk.replayer('C05.', replay_c05)
     chk.fallback('B4.c05.stale_and_races', lambda: replay_c05(None),
                  'every guarded operation x every stale generation sequentially; 8 two/three-request interleavings at transaction granularity (competing guarded write, plus a rename that read the provider earlier)', always=True)
-    chk.keep_prefixes = keep + ('leaf.', 'typestate.', 'H.', 'frame.')
+    chk.keep_prefixes = keep + ('leaf.', 'typestate.', 'H.', 'frame.', 'mut.')
     chk.assume('A-txn', 'A-lib', 'A-heap', 'A-nofault', 'A-key')
     return chk
 
